@@ -266,6 +266,17 @@ pub fn run(tier: &str) -> Result<Report, String> {
         crate::history::run(&mut rep, &fam, crate::history::WARM_PLAIN, crate::history::PROBE_PLAIN, Checks { semantic: true, unit: true, entries: Entries::Plain4 }, 0)?;
         parts.push(json!({"part": "two-step histories (warm-up on a look-alike graph, then probes against the oracle, one fresh OS thread per ordered pair)", "family": fam.describe, "warm": crate::history::WARM_PLAIN.len(), "probes": crate::history::PROBE_PLAIN.len()}));
     }
+    // 1h. until operators with compound operands over ALL variables of sparse 3- / 4-variable networks (operands that ignore some
+    //     variables, variables that do not regulate each other)
+    for (name, text) in [("spa4", "b -?? a; c -?? b; b -?? c; c -?? c; c -?? d; $a: b; $d: !c"), ("spb4", "a -?? b; a -?? c; d -?? c; d -?? d; $a: true; $b: a; b -?? a"), ("lin4s", "a -> b; b -> c; c -> d; d -| a; $a: !d; $b: a; $c: b; $d: c")] {
+        let b = std::sync::Arc::new(bind(name, &crate::nets::spec(text), 3)?);
+        sem::note_network(&mut rep, &b);
+        let ctx = NetCtx::new(b.clone(), Labels::default(), "none").with_all_props();
+        let fs = crate::formulas::until_compound_family(b.n as u8);
+        let fs: Vec<F> = if quick { fs.into_iter().step_by(2).collect() } else { fs };
+        parts.push(json!({"part": "until operators with compound operands over all variables", "network": name, "aeon": b.aeon, "formulae": fs.len()}));
+        sem::sweep(&mut rep, &ctx, &fs, Checks { semantic: true, unit: false, entries: Entries::PlainDirty });
+    }
     // 1g. graphs whose context gives different numbers of spare variables to different network variables
     {
         let mut n_non = 0u64;
